@@ -104,6 +104,7 @@ theorem step_inv {M : Nat} (hM : 1 ≤ M) {s s' : Sys} (c : Choice) (hc : OneW c
   | moveLeader b =>
     simp only [sysStep, Option.some.injEq] at hs
     rw [← hs]; exact ⟨v, good_moveLeader hg b⟩
+  | closeW w => exact absurd hc (by simp [OneW])
 
 theorem run_inv {M : Nat} (hM : 1 ≤ M) (cs : List Choice) : ∀ {s s' : Sys}, SingleWorker cs → SInv M s →
     run M s cs = some s' → SInv M s' := by
@@ -186,6 +187,7 @@ theorem cons_step {M : Nat} (hM : 1 ≤ M) {s s' : Sys} {v : View} (c : Choice) 
   | moveLeader b =>
     simp only [sysStep, Option.some.injEq] at hs
     rw [← hs]; exact cons_of_eq hcs rfl (fun _ => rfl)
+  | closeW w => exact absurd hc (by simp [OneW])
 
 theorem run_cons {M : Nat} (hM : 1 ≤ M) (cs : List Choice) : ∀ {s s' : Sys}, SingleWorker cs → SInv M s → Cons M s →
     run M s cs = some s' → Cons M s' := by
